@@ -11,8 +11,7 @@ FORMS = {frozenset(): 'plain', frozenset(['size']): 'fixed', frozenset(['bound']
          frozenset(['greedy']): 'greedy', frozenset(['optional']): 'optional'}
 
 
-def ws(s):
-    return re.sub(r'\s+', ' ', s)
+from ..pyfront import ws  # noqa: E402,F401  (whitespace-collapsed, rename/normal-form tolerant `in`)
 
 
 def run(ctx, L, tier):
